@@ -207,7 +207,8 @@ class _Simu(_IObserver, _params.Updatable, ABC):
         if dofs is None:
             dofs = self.Get_dofs()
 
-        return Reduce_sum(0.5 * x[dofs] @ (A[dofs] @ x))
+        # with Lagrange conditions the assembled operator carries the (empty) multiplier block too
+        return Reduce_sum(0.5 * x[dofs] @ (A[dofs][:, : x.size] @ x))
 
     def Calc_Reaction(
         self, dofs: _types.IntArray = None, problemType: ProblemType = None
@@ -245,14 +246,18 @@ class _Simu(_IObserver, _params.Updatable, ABC):
 
         K, C, M, _ = self.Get_K_C_M_F(problemType)
 
-        reaction = np.zeros(K.shape[0], dtype=float)
+        u = self._Get_u_n(problemType)
+        # with Lagrange conditions the assembled operators carry the (empty) multiplier block too:
+        # the reaction lives on the dofs of the mesh
+        Ndof = u.size
+        reaction = np.zeros(Ndof, dtype=float)
 
-        reaction[dofs] = K[dofs] @ self._Get_u_n(problemType)
+        reaction[dofs] = K[dofs][:, :Ndof] @ u
         if self.algo == AlgoType.parabolic:
-            reaction[dofs] += C[dofs] @ self._Get_v_n(problemType)
+            reaction[dofs] += C[dofs][:, :Ndof] @ self._Get_v_n(problemType)
         elif self.algo in AlgoType.Get_Hyperbolic_Types():
-            reaction[dofs] += C[dofs] @ self._Get_v_n(problemType)
-            reaction[dofs] += M[dofs] @ self._Get_a_n(problemType)
+            reaction[dofs] += C[dofs][:, :Ndof] @ self._Get_v_n(problemType)
+            reaction[dofs] += M[dofs][:, :Ndof] @ self._Get_a_n(problemType)
 
         if MPI_SIZE > 1:
             return Reduce_sum(reaction)
